@@ -79,16 +79,16 @@ Definition S_certified_oracle : Prop :=
     equations (Jacobi, Gauss-Seidel, any mixture of old and new reads):
     |x' - x*|_1 <= alpha/(1-alpha) |x' - x|_1, i.e. the documented "norm delta" *)
 Definition S_async_error_bound : Prop :=
-  forall n pred alpha v md x x' st y,
+  forall n pred alpha v md x x' y,
   wf_input n pred alpha v ->
-  async_step n pred alpha v md x x' st -> solves n pred alpha v md y ->
+  async_step n pred alpha v md x x' -> solves n pred alpha v md y ->
   (1 - alpha) * sumn n (fun i => Qabs (x' i - y i)) <= alpha * sumn n (fun i => Qabs (x' i - x i)).
 
-(** NOT PROVED (kept as the full statement): the same bound for the executable list-level
-    [sweep] (a fold over the write order with explicit staleness choices).  What is missing
-    is only the programming-level lemma that the result of the fold satisfies the
-    equations [async_step] for some [st]; the mathematical content is
-    [S_async_error_bound].  f64 rounding is outside the model altogether. *)
+(** the same bound for the executable list-level [sweep]: for every write order (a
+    permutation of the nodes), every staleness choice and every start vector with its
+    consistent dangling rank, after one sweep the l1 distance from the certified solution
+    is at most alpha/(1-alpha) times the l1 change of the sweep, which is what the code
+    reports as norm delta.  (f64 rounding is outside the model.) *)
 Definition S_error_bound : Prop :=
   forall gt alpha v md order stale xs sol,
   certified gt alpha v md sol = true ->
